@@ -2313,6 +2313,16 @@ impl Residual {
         remainders: &[u32],
     ) -> Result<Self, VerifyError> {
         // Some pre-construction verification
+        verify_range!(
+            "partition_order",
+            partition_order,
+            ..=(crate::constant::rice::MAX_PARTITION_ORDER)
+        )?;
+        verify_true!(
+            "rice_params.len",
+            rice_params.len() == 1usize << partition_order,
+            "must be identical with the number of partitions"
+        )?;
         let ret = Self::from_parts(
             partition_order as u8,
             block_size,
